@@ -135,7 +135,8 @@ EvalcallClauses(x, ev) ==
     \o (IF \E k \in DOMAIN ev.after : ev.after[k].has /\
               ev.after[k].comps # (IF ev.inds[k].had THEN ev.inds[k].hadcomps ELSE TableFit(ev.inds[k].v))
         THEN <<<<"C13", "C13:fitness#ff(program)">>>> ELSE <<>>)
-    \o (IF \E k \in DOMAIN ev.after : ev.after[k].has /\ ev.after[k].agg # Agg(ev.after[k].comps, ev.mini)
+    \o (IF \E k \in DOMAIN ev.after : ev.after[k].has /\
+              (Len(ev.after[k].comps) # Len(ev.mini) \/ ev.after[k].agg # Agg(ev.after[k].comps, ev.mini))
         THEN <<<<"C13", "C13:aggregate">>>> ELSE <<>>)
     \o (IF \E k \in DOMAIN ev.ffcalls : CallsWithV(ev, ev.ffcalls[k].v) > FreshWithV(ev, ev.ffcalls[k].v)
         THEN <<<<"C13", "C13:evaluated-twice">>>> ELSE <<>>)
